@@ -23,6 +23,7 @@ type RunOpts struct {
 	PollsAfterEnd int // extra polls after the end of stream (C12)
 	AltModes string // optional: per-poll mode string e.g. "rbbr" (r=Next b=Batch), cycles
 	NoGlobals bool  // do not touch the package-level knobs (concurrent runs)
+	PollsAfterFail int // keep polling this many times after a poll returned an error (C12/C13: nothing is written again)
 }
 
 type PlanInfo struct {
@@ -227,6 +228,23 @@ func RunQuery(q string, st kvql.Storage, rec *Rec, o RunOpts) (out Outcome) {
 			out.ErrKind, out.ErrPos = errKind(err)
 			out.ErrMsg = err.Error()
 			mark("PollEnd", false, len(rows), out.ErrKind)
+			if o.PollsAfterFail > 0 {
+				mark("Repoll", false, 0, "")
+				func() {
+					defer func() { recover() }() // what a failed plan does when polled again is judged by its storage calls only
+					for i := 0; i < o.PollsAfterFail; i++ {
+						mark("Poll", i%2 == 1, 0, "")
+						var e2 error
+						if i%2 == 1 {
+							_, e2 = plan.Batch(ctx)
+						} else {
+							_, e2 = plan.Next(ctx)
+						}
+						k, _ := errKind(e2)
+						mark("PollEnd", false, 0, k)
+					}
+				}()
+			}
 			return
 		}
 		mark("PollEnd", len(rows) > 0, len(rows), "")
